@@ -8,7 +8,7 @@ Import ListNotations.
 Local Open Scope Z_scope.
 
 Ltac enter f cf :=
-  cbn [callf nth_error cprog f cf fn_nparams fn_nlocals fn_body length Nat.eqb Nat.sub repeat app].
+  rewrite callf_S; cbn [nth_error cprog f cf fn_nparams fn_nlocals fn_body length Nat.eqb Nat.sub repeat app].
 (* the goal depends on a byte c < 256 only through closed computations: try all 256 values *)
 Ltac sweep_byte c Hc :=
   pattern c; revert c Hc; apply byte_cases;
@@ -27,3 +27,206 @@ Proof.
   pose proof (nthb_lt256 s o H256) as Hc. generalize dependent (nthb s o). intros c Hc.
   Time sweep_byte c Hc.
 Time Qed.
+
+(* ------------------------------------------------------------------ uc_code *)
+Definition sx (b : N) : Z := wrap I32 (wrap I8 (Z.of_N b)).     (* a char promoted to int *)
+Definition resZ_eqb (a b : res Z) : bool :=
+  match a, b with Ok x, Ok y => x =? y | _, _ => false end.
+Lemma resZ_eqb_eq a b : resZ_eqb a b = true -> a = b.
+Proof. destruct a, b; cbn; try discriminate. intro H. apply Z.eqb_eq in H. now subst. Qed.
+(* a fact about one byte, decided by trying the 256 values *)
+Ltac byte_fact := 
+  match goal with
+  | |- forall c, (c < 256)%N -> @eq (res Z) (@?L c) (@?R c) =>
+      intros c Hc; apply resZ_eqb_eq; revert c Hc;
+      apply (byte_sweep (fun c => resZ_eqb (L c) (R c))); vm_compute; reflexivity
+  | |- forall c, (c < 256)%N -> @eq bool (@?L c) (@?R c) =>
+      intros c Hc; apply eqb_prop; revert c Hc;
+      apply (byte_sweep (fun c => Bool.eqb (L c) (R c))); vm_compute; reflexivity
+  | |- forall c, (c < 256)%N -> @eq Z (@?L c) (@?R c) =>
+      intros c Hc; apply Z.eqb_eq; revert c Hc;
+      apply (byte_sweep (fun c => Z.eqb (L c) (R c))); vm_compute; reflexivity
+  end.
+
+Lemma cc_c0 : forall c, (c < 256)%N ->
+  negb (Z.land (Z.lnot (Z.of_N c)) 192 =? 0) = negb (bit c 128 && bit c 64).
+Proof. byte_fact. Qed.
+Lemma cc_20 : forall c, (c < 256)%N -> negb (Z.land (Z.lnot (Z.of_N c)) 32 =? 0) = negb (bit c 32).
+Proof. byte_fact. Qed.
+Lemma cc_10 : forall c, (c < 256)%N -> negb (Z.land (Z.lnot (Z.of_N c)) 16 =? 0) = negb (bit c 16).
+Proof. byte_fact. Qed.
+Lemma cc_08 : forall c, (c < 256)%N -> negb (Z.land (Z.lnot (Z.of_N c)) 8 =? 0) = negb (bit c 8).
+Proof. byte_fact. Qed.
+(* what xstep leaves of a << k computed in int *)
+Definition shl32 (a k : Z) : res Z := if a <? 0 then Err EOverflow else chk I32 (Z.shiftl a k).
+Ltac fold_shl :=
+  repeat match goal with
+         | |- context [if ?a <? 0 then Err EOverflow else chk I32 (Z.shiftl ?a ?k)] =>
+             change (if a <? 0 then Err EOverflow else chk I32 (Z.shiftl a k)) with (shl32 a k)
+         end.
+Lemma sh_1f_6 : forall c, (c < 256)%N ->
+  shl32 (Z.land (Z.of_N c) 31) 6 = Ok (Z.of_N (N.shiftl (N.land c 31) 6)).
+Proof. byte_fact. Qed.
+Lemma sh_0f_12 : forall c, (c < 256)%N ->
+  shl32 (Z.land (Z.of_N c) 15) 12 = Ok (Z.of_N (N.shiftl (N.land c 15) 12)).
+Proof. byte_fact. Qed.
+Lemma sh_07_18 : forall c, (c < 256)%N ->
+  shl32 (Z.land (Z.of_N c) 7) 18 = Ok (Z.of_N (N.shiftl (N.land c 7) 18)).
+Proof. byte_fact. Qed.
+Lemma sx_3f : forall c, (c < 256)%N -> Z.land (wrap I32 (wrap I8 (Z.of_N c))) 63 = Z.of_N (N.land c 63).
+Proof. byte_fact. Qed.
+Lemma sh_3f_6 : forall c, (c < 256)%N ->
+  shl32 (Z.of_N (N.land c 63)) 6 = Ok (Z.of_N (N.shiftl (N.land c 63) 6)).
+Proof. byte_fact. Qed.
+Lemma sh_3f_12 : forall c, (c < 256)%N ->
+  shl32 (Z.of_N (N.land c 63)) 12 = Ok (Z.of_N (N.shiftl (N.land c 63) 12)).
+Proof. byte_fact. Qed.
+Lemma len_2 : forall c, (c < 256)%N -> (negb (bit c 128 && bit c 64) || bit c 32) = negb (Nat.eqb (uc_len_b c) 2).
+Proof. byte_fact. Qed.
+Lemma len_3 : forall c, (c < 256)%N -> (negb (bit c 128 && bit c 64) || negb (bit c 32) || bit c 16) = negb (Nat.eqb (uc_len_b c) 3).
+Proof. byte_fact. Qed.
+Lemma len_4 : forall c, (c < 256)%N -> (negb (bit c 128 && bit c 64) || negb (bit c 32) || negb (bit c 16) || bit c 8) = negb (Nat.eqb (uc_len_b c) 4).
+Proof. byte_fact. Qed.
+
+Theorem tr_uc_code m b s o d fuel :
+  str_at m b s -> bytes_lt256 s -> (o + uc_len_b (nthb s o) - 1 <= length s)%nat -> (o <= length s)%nat ->
+  callf cprog fuel (S d) F_uc_code [VPtr b (Z.of_nat o)] m
+  = Ok (VInt (Z.of_N (uc_code (skipn o s))), m).
+Proof.
+  intros Hs H256 Hlen Ho. enter F_uc_code cf_uc_code. xstep.
+  rewrite (load_str m b s _ o Hs) by lia. xstep. rewrite wrap_byte_chain by (apply nthb_lt256; exact H256).
+  unfold uc_code. rewrite !nthb_skipn, Nat.add_0_r.
+  pose proof (nthb_lt256 s o H256) as Hc. pose proof (nthb_lt256 s (o + 1) H256) as H1.
+  pose proof (nthb_lt256 s (o + 2) H256) as H2. pose proof (nthb_lt256 s (o + 3) H256) as H3.
+  pose proof (len_2 _ Hc) as L2. pose proof (len_3 _ Hc) as L3. pose proof (len_4 _ Hc) as L4.
+  set (c := nthb s o) in *. set (b1 := nthb s (o + 1)) in *. set (b2 := nthb s (o + 2)) in *. set (b3 := nthb s (o + 3)) in *.
+  rewrite (cc_c0 c Hc). destruct (negb (bit c 128 && bit c 64)) eqn:E1; [reflexivity|].
+  xstep. rewrite (cc_20 c Hc).
+  destruct (negb (bit c 32)) eqn:E2.
+  { (* two bytes *)
+    assert (uc_len_b c = 2%nat) as L by (destruct (bit c 32); cbn in *; try discriminate; apply Nat.eqb_eq; destruct (Nat.eqb (uc_len_b c) 2); [reflexivity|discriminate]).
+    xstep. fold_shl. rewrite (sh_1f_6 c Hc). xstep.
+    rewrite (load_str m b s _ (o + 1) Hs) by lia. xstep. fold b1.
+    rewrite (sx_3f b1 H1), of_N_lor. reflexivity. }
+  xstep. rewrite (cc_10 c Hc).
+  destruct (negb (bit c 16)) eqn:E3.
+  { assert (uc_len_b c = 3%nat) as L by (destruct (bit c 32), (bit c 16); cbn in *; try discriminate; apply Nat.eqb_eq; destruct (Nat.eqb (uc_len_b c) 3); [reflexivity|discriminate]).
+    xstep. fold_shl. rewrite (sh_0f_12 c Hc). xstep.
+    rewrite (load_str m b s _ (o + 1) Hs) by lia. xstep. fold b1. rewrite (sx_3f b1 H1).
+    fold_shl. rewrite (sh_3f_6 b1 H1). xstep.
+    rewrite (load_str m b s _ (o + 2) Hs) by lia. xstep. fold b2.
+    rewrite (sx_3f b2 H2), !of_N_lor. reflexivity. }
+  xstep. rewrite (cc_08 c Hc).
+  destruct (negb (bit c 8)) eqn:E4.
+  { assert (uc_len_b c = 4%nat) as L by (destruct (bit c 32), (bit c 16), (bit c 8); cbn in *; try discriminate; apply Nat.eqb_eq; destruct (Nat.eqb (uc_len_b c) 4); [reflexivity|discriminate]).
+    xstep. fold_shl. rewrite (sh_07_18 c Hc). xstep.
+    rewrite (load_str m b s _ (o + 1) Hs) by lia. xstep. fold b1. rewrite (sx_3f b1 H1).
+    fold_shl. rewrite (sh_3f_12 b1 H1). xstep.
+    rewrite (load_str m b s _ (o + 2) Hs) by lia. xstep. fold b2. rewrite (sx_3f b2 H2).
+    fold_shl. rewrite (sh_3f_6 b2 H2). xstep.
+    rewrite (load_str m b s _ (o + 3) Hs) by lia. xstep. fold b3.
+    rewrite (sx_3f b3 H3), !of_N_lor. reflexivity. }
+  xstep. reflexivity.
+Qed.
+
+(* ------------------------------------------------------------------ uc_end, uc_next *)
+Lemma cc_cont : forall c, (c < 256)%N -> (Z.land (Z.of_N c) 192 =? 128) = is_cont c.
+Proof. byte_fact. Qed.
+Lemma cc_lead : forall c, (c < 256)%N -> (Z.land (Z.of_N c) 192 =? 192) = is_lead c.
+Proof. byte_fact. Qed.
+Lemma cc_high : forall c, (c < 256)%N -> negb (Z.land (Z.of_N c) 128 =? 0) = bit c 128.
+Proof. byte_fact. Qed.
+Lemma cc_nz : forall c, (c < 256)%N -> negb (wrap I8 (Z.of_N c) =? 0) = negb (c =? 0)%N.
+Proof. byte_fact. Qed.
+
+Definition uc_end_loop : stmt :=
+  match fn_body cf_uc_end with SSeq _ (SSeq _ (SSeq w _)) => w | _ => SSkip end.
+
+Lemma uc_end_loop_ok call m b s : str_at m b s -> bytes_lt256 s ->
+  forall n p fuel, (p <= length s)%nat -> skip_cont (skipn p s) = n -> (n < fuel)%nat ->
+  exec call fuel uc_end_loop (mkst [VPtr b (Z.of_nat p)] m) = ONormal (mkst [VPtr b (Z.of_nat (p + n))] m).
+Proof.
+  intros Hs H256. induction n as [|n IH]; intros p fuel Hp Hn Hf; (destruct fuel as [|fuel]; [lia|]);
+    unfold uc_end_loop; cbn [fn_body cf_uc_end]; rewrite exec_while; xstep;
+    rewrite (load_str m b s _ p Hs) by lia; xstep;
+    rewrite wrap_byte_chain by (apply nthb_lt256; exact H256);
+    rewrite nb2z, (cc_cont _ (nthb_lt256 s p H256)).
+  - destruct (Nat.eq_dec p (length s)) as [->|Hne].
+    + rewrite nthb_end by lia. cbn. rewrite Nat.add_0_r. reflexivity.
+    + rewrite skipn_cons_nthb in Hn by lia. cbn [skip_cont] in Hn.
+      destruct (is_cont (nthb s p)); [discriminate|]. rewrite Nat.add_0_r. reflexivity.
+  - destruct (Nat.eq_dec p (length s)) as [->|Hne].
+    + rewrite skipn_end in Hn by lia. discriminate.
+    + rewrite skipn_cons_nthb in Hn by lia. cbn [skip_cont] in Hn.
+      destruct (is_cont (nthb s p)); [|discriminate]. injection Hn as Hn.
+      replace (Z.of_nat p + 1) with (Z.of_nat (S p)) by lia.
+      change (SWhile _ _) with uc_end_loop. rewrite (IH (S p) fuel ltac:(lia) Hn ltac:(lia)).
+      do 4 f_equal. lia.
+Qed.
+
+Lemma skip_cont_le s : (skip_cont s <= length s)%nat.
+Proof. induction s as [|x s IH]; cbn; [lia|]. destruct (is_cont x); lia. Qed.
+
+Lemma cc_z0 : forall c, (c < 256)%N -> (wrap I8 (Z.of_N c) =? 0) = (c =? 0)%N.
+Proof. byte_fact. Qed.
+Lemma cc_z0i : forall c, (c < 256)%N -> (wrap I32 (wrap I8 (Z.of_N c)) =? 0) = (c =? 0)%N.
+Proof. byte_fact. Qed.
+Lemma cc_cont_of : forall c, (c < 256)%N -> (bit c 128 && negb (is_lead c)) = is_cont c.
+Proof. byte_fact. Qed.
+
+Ltac xload Hs H256 p :=
+  rewrite (load_str _ _ _ _ p Hs) by lia; xstep;
+  rewrite ?wrap_byte_chain by (apply nthb_lt256; exact H256); rewrite ?nb2z.
+
+Theorem tr_uc_end m b s o d fuel :
+  str_at m b s -> bytes_lt256 s -> (o <= length s)%nat -> (length s < fuel)%nat ->
+  callf cprog fuel (S d) F_uc_end [VPtr b (Z.of_nat o)] m
+  = Ok (VPtr b (Z.of_nat (o + uc_end (skipn o s))), m).
+Proof.
+  intros Hs H256 Ho Hf. enter F_uc_end cf_uc_end. xstep.
+  pose proof (nthb_lt256 s o H256) as Hc.
+  xload Hs H256 o. rewrite negb_involutive, (cc_z0 _ Hc).
+  assert (Hsk: skipn o s = if (o <? length s)%nat then nthb s o :: skipn (S o) s else []).
+  { destruct (Nat.ltb_spec o (length s)); [apply skipn_cons_nthb; lia | apply skipn_end; lia]. }
+  destruct (N.eqb_spec (nthb s o) 0) as [E0|E0].
+  { xstep. unfold uc_end. rewrite Hsk. destruct (o <? length s)%nat; [rewrite E0; cbn|]; rewrite Nat.add_0_r; reflexivity. }
+  assert (o < length s)%nat as Hlt
+    by (destruct (Nat.lt_ge_cases o (length s)); [assumption| rewrite nthb_end in E0 by lia; congruence]).
+  destruct (Nat.ltb_spec o (length s)); [|lia].
+  xstep. xload Hs H256 o. rewrite (cc_high _ Hc).
+  unfold uc_end. rewrite Hsk.
+  destruct (bit (nthb s o) 128) eqn:E1; cbn [negb]; xstep; [|rewrite Nat.add_0_r; reflexivity].
+  xload Hs H256 o. rewrite (cc_lead _ Hc).
+  pose proof (cc_cont_of _ Hc) as Hco. rewrite E1 in Hco. cbn [andb] in Hco.
+  destruct (is_lead (nthb s o)) eqn:E2; xstep.
+  - replace (Z.of_nat o + 1) with (Z.of_nat (S o)) by lia.
+    change (SWhile _ _) with uc_end_loop.
+    rewrite (uc_end_loop_ok _ m b s Hs H256 _ (S o) fuel ltac:(lia) eq_refl)
+      by (pose proof (skip_cont_le (skipn (S o) s)); rewrite skipn_length in *; lia).
+    xstep. do 3 f_equal. lia.
+  - change (SWhile _ _) with uc_end_loop.
+    rewrite (uc_end_loop_ok _ m b s Hs H256 _ o fuel ltac:(lia) eq_refl)
+      by (pose proof (skip_cont_le (skipn o s)); rewrite skipn_length in *; lia).
+    xstep. rewrite Hsk. cbn [skip_cont]. rewrite <- Hco. cbn [negb]. do 3 f_equal. lia.
+Qed.
+
+Lemma uc_end_in s : (uc_end s <= length s)%nat.
+Proof.
+  destruct s as [|x s]; cbn; [lia|]. destruct (negb (bit x 128)); [lia|].
+  pose proof (skip_cont_le s). cbn [skip_cont length].
+  destruct (is_lead x), (is_cont x); lia.
+Qed.
+
+Theorem tr_uc_next m b s o d fuel :
+  str_at m b s -> bytes_lt256 s -> (o <= length s)%nat -> (length s < fuel)%nat ->
+  callf cprog fuel (S (S d)) F_uc_next [VPtr b (Z.of_nat o)] m
+  = Ok (VPtr b (Z.of_nat (o + uc_next (skipn o s))), m).
+Proof.
+  intros Hs H256 Ho Hf. enter F_uc_next cf_uc_next. xstep.
+  rewrite (tr_uc_end m b s o d fuel Hs H256 Ho Hf). xstep.
+  pose proof (uc_end_in (skipn o s)) as He. rewrite skipn_length in He.
+  xload Hs H256 (o + uc_end (skipn o s))%nat.
+  pose proof (nthb_lt256 s (o + uc_end (skipn o s)) H256) as Hc.
+  rewrite (cc_z0i _ Hc). unfold uc_next. rewrite nthb_skipn.
+  destruct (nthb s (o + uc_end (skipn o s)) =? 0)%N; xstep; do 3 f_equal; lia.
+Qed.
